@@ -211,8 +211,10 @@ void watchdog() {
     if (seq != last) { last = seq; stuck = 0; continue; }
     if (++stuck < 10) continue;
     string sc = main_syscall();
-    if (sc.rfind("7 ", 0) == 0 || sc.rfind("271 ", 0) == 0) {
-      string msg = g_wd_prop + ":nonblocking-waits: " + what + " did not return: the calling thread has been waiting in poll() for 5 s although the call must return at once";
+    static const char *parked[] = {"7 ", "271 ", "45 ", "44 ", "43 ", "288 ", "42 ", "47 ", "46 "};   // poll ppoll recvfrom sendto accept accept4 connect recvmsg sendmsg
+    bool in_wait = false; for (const char *pfx : parked) if (sc.rfind(pfx, 0) == 0) in_wait = true;
+    if (in_wait) {
+      string msg = g_wd_prop + ":nonblocking-waits: " + what + " did not return: the calling thread has been parked in a waiting system call (number " + sc.substr(0, sc.find(' ')) + ") for 5 s although the call must return at once";
       vl::report_failure(g_wd_sub + "_hang", g_wd_text, msg, "nonblocking-waits");
       vl::stats().flush();
       printf("REPLAY-FAIL %s\n", msg.c_str()); fflush(stdout);
@@ -535,7 +537,21 @@ Outcome run_c10(const Case &c) {
         double dt = now_ms() - t0;
         if (with_peer) {
           if (!r) fail("accept", "accept with a pending connection failed: " + errstr(err));
-          else { int fl = fcntl(p_socket_get_fd(r), F_GETFD); if (!(fl & FD_CLOEXEC)) fail("cloexec", "descriptor of an accepted socket lacks close-on-exec"); if (!p_socket_is_connected(r)) {} p_socket_free(r); }
+          else {
+            int fl = fcntl(p_socket_get_fd(r), F_GETFD); if (!(fl & FD_CLOEXEC)) fail("cloexec", "descriptor of an accepted socket lacks close-on-exec");
+            // the accepted socket is a socket like any other: switched to non-blocking, a receive with nothing to read returns would-block at once
+            if (arg % 3 != 1) {
+              p_socket_set_blocking(r, FALSE);
+              if (p_socket_get_blocking(r) != FALSE) fail("getter-blocking", "get_blocking of an accepted socket is TRUE after set_blocking (FALSE)");
+              char ab[16]; PError *ae = NULL; pssize ar;
+              { MustNotBlock g("non-blocking p_socket_receive on an accepted socket"); ar = p_socket_receive(r, ab, sizeof ab, &ae); }
+              if (ar >= 0) fail("nonblocking-code", "non-blocking receive on an accepted socket with nothing sent returned " + std::to_string(ar));
+              else if (!ae || p_error_get_code(ae) != P_ERROR_IO_WOULD_BLOCK) fail("nonblocking-code", "non-blocking receive on an accepted socket with nothing sent failed with " + errstr(ae) + " instead of would-block");
+              if (ae) p_error_free(ae);
+              vl::stats().klass("accepted_socket_used_nonblocking");
+            }
+            p_socket_free(r);
+          }
         } else if (r) { p_socket_free(r); /* a stale pending peer from an earlier step */ }
         else if (m.blocking && m.timeout > 0) { timed = true; if (!err || p_error_get_code(err) != P_ERROR_IO_TIMED_OUT) fail("timeout-code", "blocking accept with timeout " + std::to_string(m.timeout) + " ms and nobody connecting failed with " + errstr(err) + " instead of timed-out"); else if (dt < m.timeout - 0.5) fail("timeout-early", "accept timed out after " + std::to_string(dt) + " ms, before the timeout of " + std::to_string(m.timeout) + " ms elapsed"); }
         else if (!m.blocking) { timed = true; if (!err || p_error_get_code(err) != P_ERROR_IO_WOULD_BLOCK) fail("nonblocking-code", "non-blocking accept with nobody connecting failed with " + errstr(err) + " instead of would-block"); if (W.polls != pb) fail("nonblocking-waits", "non-blocking accept waited (poll was called)"); }
